@@ -273,3 +273,8 @@ mod tests {
 }
 /* vim: textwidth=80
  */
+
+#[cfg(rustradio_verif)]
+pub mod verif_access {
+    include!(concat!(env!("RUSTRADIO_VERIF_DIR"), "/access/mtgraph.rs"));
+}
